@@ -61,7 +61,7 @@ def gen_pair(rng, tier):
     if rng.random() < 0.04:
         top = 90       # a few larger diagrams: size-dependent behaviour (chunking, truncation) must not hide
     big = rng.random() < (0.012 if tier == "quick" else 0.02)
-    style = str(rng.choice(["reorder", "jitter", "indep", "disjoint", "empty", "neardiag", "grid"]))
+    style = str(rng.choice(["reorder", "jitter", "indep", "disjoint", "empty", "neardiag", "grid", "repaired"]))
     scale = float(rng.choice([1e-2, 0.1, 1, 1, 1, 10, 1e2]))
     m = int(rng.integers(1, top + 1))
     if big:         # sizes around and above 128 / 256 (block sizes of vectorised implementations)
@@ -73,6 +73,10 @@ def gen_pair(rng, tier):
     elif style == "jitter":
         G = F[rng.permutation(m)] + rng.normal(0, float(rng.choice([1e-9, 1e-6, 1e-3])) * scale, (m, 2))
         G[:, 1] = np.maximum(G[:, 1], G[:, 0])      # stay inside the domain: no point below the diagonal
+    elif style == "repaired":
+        # same multiset of births and same multiset of deaths, paired differently: a different diagram at a positive distance
+        F = gen.diagram(rng, m, str(rng.choice(["grid", "dyadic", "float"])), scale)
+        G = gen.repaired(rng, F)
     elif style == "indep":
         G = gen.diagram(rng, int(rng.integers(1, top + 1)), None, scale)
     elif style == "disjoint":
